@@ -36,6 +36,8 @@ func init() {
 const tunPkg = "internal/protocol/session/tunnel"
 
 func runC02(r *Report) {
+	// delegating Read/Write wrappers on the server data path are transparent (R-C02-1)
+	checkDelegatingWrappers(r, "R-C02-1", "internal/protocol/session/tunnel", "internal/protocol/adapter", "internal/stream", "internal/protocol/session")
 	// ---- R-C02-1 copy loop ---------------------------------------------------
 	cwc := r.need("R-C02-1", tunPkg, "Bridge.CopyWithControl")
 	if cwc != nil {
